@@ -580,7 +580,6 @@ func checkC12(c *Ctx, r *Report) {
 
 }
 
-
 // cipherSuiteParser: the function of package bmc taking a byte slice and
 // returning ([]ipmi.CipherSuiteRecord, error).
 func (c *Ctx) cipherSuiteParser() *ssa.Function {
